@@ -52,7 +52,7 @@ def runOpCore (s : DState) (name : String) (args : List SExp) : String :=
         if !mentionsMethods env T then s!"model={showResI (Compare.field env T x y)} spec={Spec.cmpVal x y}"
         else s!"model={showResI (CompareM.field env T x y)}"
       -- consistency of Compare with Equal: `cmp == 0` iff Equal (the emitted functions on the Go side)
-      | "cmpeq", [x, y] =>
+      | "cmpeq", [x, y] | "cmpeqv", [x, y] =>
         let c := CompareM.top env T x y
         let e := EqualM.top env T x y
         let m := match c, e with
